@@ -144,9 +144,17 @@ class Schema:
             el = fn("ELEM_" + attr, Ref, I, Ref)
             ecls = FIELDS[attr][1]
             ip.path.assume(n >= 0)
-            return SSeq(n, lambda k, el=el: Opaque(el(o.ref, k if not isinstance(k, int) else z3.IntVal(k)), ecls,
-                                                   exact=(ecls == "Variable")),
-                        "list", attr, tag=("field", attr, o.ref))
+
+            def get(k, el=el, ecls=ecls, n=n):
+                kt = k if not isinstance(k, int) else z3.IntVal(k)
+                er = el(o.ref, kt)
+                if ecls == "Variable":
+                    # class invariant of VectorVariable (every constructor route stores Variable objects)
+                    ip.path.assume(z3.Implies(z3.And(kt >= 0, kt < n), self.kinds.is_kind(er, "Variable")))
+                    if ip.path.entails(z3.And(kt >= 0, kt < n)):
+                        self.learn_kind(ip, er, "Variable")
+                return Opaque(er, ecls, exact=(ecls == "Variable"))
+            return SSeq(n, get, "list", attr, tag=("field", attr, o.ref))
         if tag == "key":
             return SpecFn(None, "sortkey", meta={"sortkey_of": o.ref})
         raise Unsupported(f"field {attr}")
@@ -338,7 +346,9 @@ class Schema:
             tag, _c, mutable = FIELDS[f]
             try:
                 if tag == "ref" and isinstance(val, (Obj, Opaque)):
-                    p.assume(self.F(f, Ref)(o.ref) == ip.models.ref_of(ip, val))
+                    cref = ip.models.ref_of(ip, val)
+                    p.assume(self.F(f, Ref)(o.ref) == cref)
+                    p.ghost.setdefault("children", {}).setdefault(str(o.ref), []).append(cref)
                 elif tag == "name" and isinstance(val, (str, SName)) and not mutable:
                     p.assume(self.F(f, Name)(o.ref) == ip.models.name_term(val))
                 elif tag == "real" and ip.models.isnum(val) and not mutable:
@@ -465,3 +475,11 @@ class Schema:
     def str_contains(self, s: SStrOpaque, lit_: str):
         return fn("STRCONTAINS", Name, B)(sym.lit(f"{lit_!r} in <{id(s) % 0}msg>")) if False else \
             z3.Const(f"contains!{lit_}", B)
+
+    # ------------------------------------------------------------------ zip / misc sequence helpers
+    def zip_symbolic(self, ip, seqs, node=None):
+        n = ip.models.len_term(seqs[0].n)
+        for s in seqs[1:]:
+            m = ip.models.len_term(s.n)
+            n = z3.If(n <= m, n, m)          # zip truncates to the shortest (that is exactly what C11 must exclude)
+        return SSeq(z3.simplify(n), lambda k: tuple(s.get(k) for s in seqs), "list", "zip")
